@@ -6,7 +6,19 @@ import (
 )
 
 // S renders a Go string as a Coq byte list.
+// S renders a byte string as a Coq term of type J5sAst.str: (b "text") for printable ASCII
+// (a string literal parses an order of magnitude faster than a list of numerals - the case
+// files are dominated by names), the list of byte values otherwise.
 func S(s string) string {
+	plain := s != ""
+	for _, c := range []byte(s) {
+		if c < 32 || c > 126 || c == '"' {
+			plain = false
+		}
+	}
+	if plain {
+		return "(b \"" + s + "\")"
+	}
 	var sb strings.Builder
 	sb.WriteByte('[')
 	for i, c := range []byte(s) {
@@ -199,6 +211,17 @@ func (f *File) Coq() string {
 	var imps, els []string
 	for _, i := range f.Imports {
 		imps = append(imps, fmt.Sprintf("(mkImport %s %s)", S(i.Path), S(i.Alias)))
+	}
+	if f.HasEntity() {
+		// a file with entities: J5sEntity.expand_jfile replaces every entity by the elements it stands for
+		for _, e := range f.Elements {
+			if e.Kind == "entity" {
+				els = append(els, "XEntity "+e.Entity.Coq())
+			} else {
+				els = append(els, "XPlain "+e.Coq())
+			}
+		}
+		return fmt.Sprintf("(expand_jfile %s %s %s\n    %s)", strList(f.Dir), S(f.Base), list(imps), "["+strings.Join(els, ";\n     ")+"]")
 	}
 	for _, e := range f.Elements {
 		els = append(els, e.Coq())
